@@ -1,4 +1,4 @@
-import WcModel.Proofs.GlobFormat
+import WcModel.Proofs.GlobExists
 import WcModel.Proofs.GlobFlags
 /-
   C12 — glob results are well-formed and independent of how the root is given.
@@ -17,7 +17,15 @@ import WcModel.Proofs.GlobFlags
     is among the exclusions, and it rejects every candidate flagged a directory whose path has
     no newline.  With a newline it does not (D18 witness) and — being the Windows variant on
     every host (D16 witness) — it also rejects a *file* whose name ends in a backslash.
-  * FALSE on the pinned tree: `C12_exists` (every result exists) — D17 witness in C05
+  * `exists_partial` — **every result exists** (`lexists`, resolved at string level from
+    scratch, as the OS does) **and ends with a separator only if it is a directory**, for every
+    well-formed tree and every part list, under the hypotheses of `C05_partial` (they exclude
+    D14 and D17; no FOLLOW / `***`).  `flag_is_fs` — the `is_dir` flag the walker carries is
+    what the file system says.  These go through the specification: a result is a denoted
+    path (C05_partial), and every denoted path is well formed (`Proofs/GlobExists.lean`, which
+    also proves that path resolution is compositional for the model's string-level resolver —
+    the justification of the location-carrying walker model).
+  * FALSE on the pinned tree without those hypotheses: `C12_exists` — D17 witness in C05
     (`f/.`, `f/`), and root independence — through `dir_fd` the fake `.`/`..` are not produced
     for a non-directory (witness `dirfd_differs`, KF-G4).
 
@@ -77,6 +85,25 @@ theorem nodir_excludes_dirs (w : WCtx) (fs : FS) (fuel : Nat) (ps : List (List G
     rw [noWinDir_excludes w v hin hd hnl] at hex
     cases hex
 
+/-- **C12_exists_partial / C12_trailing_sep (only-if)**: every path `glob()` returns for a
+    pattern exists and, if it ends with a separator, is a directory. -/
+theorem exists_partial (w : WCtx) (fs : FS) (htree : fs.WFTree) (hc : w.followLinks = false) (fuel : Nat)
+    (hf : fs.top.height < fuel) (parts : List GPart) (hl : NoLong parts) (hwf : WFParts parts)
+    (hag : SegAgree fs w.toWalkCfg parts) (ht : TopOK fs w.toWalkCfg parts) (x : List Char)
+    (hx : x ∈ perPattern w fs fuel parts) :
+    fs.lexists x = true ∧ (endsWithSep x = true → fs.isdir x = true) := by
+  obtain ⟨v, hv, _, rfl⟩ := (perPattern_iff_denotesTop w fs hc fuel hf parts hl hwf hag ht x).1 hx
+  exact format_good w fs (dirOnlyOf parts) v (denotesTop_good htree ht.rootDir hv) (denotesTop_dirOnly hv)
+
+/-- the `is_dir` flag of every candidate is what the file system says about its path -/
+theorem flag_is_fs (c : WalkCfg) (fs : FS) (htree : fs.WFTree) (hc : c.followLinks = false) (fuel : Nat)
+    (hf : fs.top.height < fuel) (parts : List GPart) (hl : NoLong parts) (hwf : WFParts parts)
+    (hag : SegAgree fs c parts) (ht : TopOK fs c parts) (v : Y) (hv : v ∈ results (globPattern c fs fuel parts)) :
+    v.isDir = fs.isdir v.path := by
+  have g := denotesTop_good htree ht.rootDir ((globPattern_iff_denotesTop c fs hc fuel hf parts hl hwf hag ht v).1 hv)
+  unfold FS.isdir
+  rw [g.resolves]; exact g.isDir
+
 /-! ### witnesses -/
 
 def wc : WalkCfg := { dot := false, caseSensitive := true, followLinks := false, fdMode := false }
@@ -113,5 +140,30 @@ def pFdot : List GPart :=
 theorem dirfd_differs :
     globResults { wN with excl := [] } tF 3 [pFdot] = ["f/.".toList] ∧
     globResults { wN with excl := [], fdMode := true } tF 3 [pFdot] = [] := by decide +kernel
+
+/-- r/ = { a/ { b/ { c }, l -> r }, f } and the pattern `a/**` -/
+def tOk : FS := ⟨.dir [("a".toList, .dir [("b".toList, .dir [("c".toList, .file)]), ("l".toList, .link (some []))]),
+                        ("f".toList, .file)], []⟩
+def pAstar : List GPart :=
+  [⟨.lit "a".toList, false, false, false, true, false⟩, ⟨.lit "**".toList, true, true, false, false, false⟩]
+
+/-- non-vacuity of `exists_partial`: all its hypotheses hold for `a/**` on `tOk` (a tree with a
+    symlink cycle), so each of `a/`, `a/b`, `a/b/c`, `a/l` exists and `a/` is a directory -/
+example (x : List Char) (hx : x ∈ perPattern { wN with excl := [] } tOk 6 pAstar) :
+    tOk.lexists x = true ∧ (endsWithSep x = true → tOk.isdir x = true) := by
+  apply exists_partial { wN with excl := [] } tOk (wfTree_of_wfB tOk (by decide +kernel)) rfl 6 (by decide +kernel)
+    pAstar _ _ _ _ x hx
+  · intro p hp; simp [pAstar] at hp; rcases hp with rfl | rfl <;> rfl
+  · exact ⟨rfl, trivial⟩
+  · intro p hp d o _
+    simp [pAstar] at hp
+    rcases hp with rfl | rfl <;> rfl
+  · refine ⟨by decide +kernel, by decide +kernel, ?_, ?_, ?_⟩
+    · intro p rest h; simp [pAstar] at h; obtain ⟨rfl, _⟩ := h; decide +kernel
+    · intro p q rest h _ _; simp [pAstar] at h; obtain ⟨rfl, _, _⟩ := h; decide +kernel
+    · intro p rest h _; simp [pAstar] at h; obtain ⟨rfl, _⟩ := h; rfl
+
+example : perPattern { wN with excl := [] } tOk 6 pAstar =
+    ["a/".toList, "a/b".toList, "a/b/c".toList, "a/l".toList] := by decide +kernel
 
 end WcModel.C12
